@@ -13,10 +13,11 @@ python3 - "$W" <<'PY'
 import glob, json, os, sys
 w = sys.argv[1]
 rep = {}
-for f in glob.glob('/verif/shim/vsched/*.go'):
+root = os.getcwd()
+for f in glob.glob(root + '/shim/vsched/*.go'):
     if not f.endswith('_test.go'):
         rep['/repo/homescript/vsched/' + os.path.basename(f)] = f
-for f in glob.glob('/verif/shim/extra/*.go'):
+for f in glob.glob(root + '/shim/extra/*.go'):
     rep['/repo/' + os.path.basename(f).replace('__', '/')] = f
 json.dump({'Replace': rep}, open(w + '/plain/overlay.json', 'w'))
 PY
